@@ -1194,7 +1194,8 @@ def gen_jitenc(src_dir):
 
 XI_OF = {'emit_alu32': ('XAlu 0', 3), 'emit_alu64': ('XAlu 1', 3), 'emit_alu32_imm32': ('XAluI32 0', 4), 'emit_alu64_imm32': ('XAluI32 1', 4),
          'emit_alu32_imm8': ('XAluI8 0', 4), 'emit_alu64_imm8': ('XAluI8 1', 4), 'emit_mov': ('XAlu 1 137', 2),
-         'emit_load_imm': ('XLoadImm', 2)}
+         'emit_load_imm': ('XLoadImm', 2),
+         'emit_cmp_imm32': ('XAluI32 1 129 7', 2), 'emit_cmp': ('XAlu 1 57', 2), 'emit_cmp32_imm32': ('XAluI32 0 129 7', 2), 'emit_cmp32': ('XAlu 0 57', 2)}
 
 
 def gen_jitarms(src_dir):
@@ -1271,5 +1272,28 @@ def gen_jitarms(src_dir):
     chain = '[]'
     for n in reversed(names):
         chain = 'if sel_ =? %s then gen_jit_arm_%s insn dst src else\n  %s' % (n, n, chain)
-    out.append("Definition gen_jit_alu (sel_ : Z) (insn : insn) (dst src : Z) : list xi :=\n  %s.\n" % chain)
+    out.append("Definition gen_jit_alu (sel_ : Z) (insn : insn) (dst src : Z) : list xi :=\n  %s.\n\n" % chain)
+    # conditional jumps: one flag-setting instruction, then jcc with a condition code
+    jnames = []
+    for pat, guard, body, ln, attrs in arms:
+        if pat[0] != 'ppath':
+            continue
+        n = pat[1].split('::')[-1]
+        if n not in env or (env[n][1] & 7) not in (5, 6) or env[n][1] in (0x05, 0x85, 0x8d, 0x95):
+            continue
+        if body[0] != 'block' or len(body[1]) != 2:
+            raise Unsupported("jump arm %s: expected two encoder calls" % n)
+        first = call(body[1][0][1])
+        j = body[1][1][1]
+        if not (j[0] == 'mcall' and show(j[1]) == 'self' and j[2] == 'emit_jcc' and show(j[3][0]) == 'mem' and show(j[3][2]) == 'target_pc'):
+            raise Unsupported("jump arm %s: second statement is not emit_jcc(mem, code, target_pc)" % n)
+        code = arg(j[3][1])
+        out.append("Definition gen_jit_jmp_%s (insn : insn) (dst src : Z) : xi * Z :=\n  (%s, %s).\n\n" % (n, first, code))
+        jnames.append(n)
+    if len(jnames) != 44:
+        raise Unsupported("%d conditional-jump arms recognised (44 expected)" % len(jnames))
+    chain = '(XLoadImm 0 0, 0)'
+    for n in reversed(jnames):
+        chain = 'if sel_ =? %s then gen_jit_jmp_%s insn dst src else\n  %s' % (n, n, chain)
+    out.append("Definition gen_jit_jmp (sel_ : Z) (insn : insn) (dst src : Z) : xi * Z :=\n  %s.\n" % chain)
     return ''.join(out)
